@@ -246,7 +246,33 @@ def runOps (fields : List String) : String × String :=
       let r3 := if canonOK then [] else
         [(if metricsAfterScan ops then "C03: F11-metrics-changed-after-scanning " else "C03: ") ++
           "a reported position is not canonical"]
-      let reasons := r1 ++ r2 ++ r3
+      -- C04 (tiling, seen through histories): with no filter installed, a plain `next` delivers the
+      -- token that starts exactly at the cursor (nothing can be skipped)
+      let tilingOK :=
+        let rec go (depth : Nat) (prevCursor : String) (prevFiltered : Bool) : List Op → List String → Bool
+          | [], _ => true
+          | _, [] => true
+          | op :: ops, o :: os =>
+            match op with
+            | .forkBegin => go (depth + 1) prevCursor prevFiltered ops os
+            | .forkEnd => go (depth - 1) prevCursor prevFiltered ops os
+            | _ =>
+              if depth > 0 then go depth prevCursor prevFiltered ops os else
+              let out := (o.splitOn "@").headD ""
+              let st := ((o.splitOn "@").getD 1 "").splitOn "/"
+              let curNow := st.getD 2 ""
+              let filteredNow := (o.splitOn "~F1").length > 1
+              let ok := match op with
+                | .next =>
+                  if !prevFiltered && out != "none" then
+                    let ts := parseSpan (st.headD "")
+                    showPos ts.s == prevCursor
+                  else true
+                | _ => true
+              ok && go depth curNow filteredNow ops os
+        go 0 "0,0,0" false ops fobs
+      let r4 := if tilingOK then [] else ["C04: an unfiltered lexer skipped text: the delivered token does not start at the cursor"]
+      let reasons := r1 ++ r2 ++ r3 ++ r4
       (mo, if reasons.isEmpty then "ok" else "FAIL " ++ "; ".intercalate reasons)
     | _ => (mo, "FAIL unparsable observation")
   | _ => ("?", "FAIL bad case line")
